@@ -142,6 +142,14 @@ func libCover(name string, opts []cat.Opts, cb bool, q, t, faults int) coverPlan
 		}}
 }
 
+// libGroupsCover: big value groups over declared functions, registrations in a fixed random order.
+func libGroupsCover(opts []cat.Opts, cb bool, q, t, faults int) coverPlan {
+	return coverPlan{name: "libgroups", bounds: Bounds{MaxInv: 1, MaxFaults: faults, FaultKinds: errKinds},
+		cats: func(seed int64, tier string) []*cat.Catalog {
+			return fam.LibGroups(seed, scale(tier, q, t), opts, cb)
+		}}
+}
+
 // digraphCover: the cycle family: digraphs on 3 constructors over a chain or fan tree.
 func digraphCover(name string, kind string, opts []cat.Opts, q, t int) coverPlan {
 	return coverPlan{name: name, bounds: Bounds{MaxInv: 1, MaxFaults: 0, FaultKinds: errKinds},
@@ -513,6 +521,7 @@ func init() {
 			covers: []coverPlan{
 				randCover("viz", small, rec, 50, 400, 1),
 				libCover("lib", recBoth, false, 10, 100, 2),
+				libGroupsCover(recBoth, false, 80, 1500, 1),
 				structCover("groups", fam.Groups, rec, false, 8, 0, 2, 1),
 				digraphCover("digraphs-req", "req", rec, 40, 600),
 			},
@@ -527,6 +536,7 @@ func init() {
 				structCover("chain", fam.Chain, recBoth, true, 20, 0, 2, 2),
 				structCover("groups", fam.Groups, recBoth, true, 6, 0, 2, 1),
 				libCover("lib", recBoth, true, 6, 60, 2),
+				libGroupsCover(recBoth, true, 30, 600, 1),
 			},
 			traces: stdTraces("callbacks", tweak(medium, func(f *fam.Features) { f.PCb = 0.7 }), 0.25, recBoth)})})
 }
